@@ -47,7 +47,9 @@ Init == \E g \in Bases, order \in {"NDR", "XDR"}, fl \in {"wkb", "wkbnan", "ewkb
            /\ nan \in (IF fl = "wkbnan" THEN BOOLEAN ELSE {FALSE})     \* NaN-point bytes are also read in plain mode
            /\ \/ bytes \in Mutants(Concrete(sym, ImgTab)) /\ lim \in Lims
               \/ bytes \in TypeMutants(Concrete(sym, ImgTab), order) /\ lim \in {<<-1, -1, -1>>, <<2, 2, 2>>}
-           /\ (lim = <<-1, -1, -1>> => Decode(bytes, flavor, nan, lim).mx <= 64)
+           \* with a limit disabled at ANY level only inputs whose count fields are small (backed by input) are in the
+           \* property's domain: a forged count at a disabled level is the documented way to exhaust memory
+           /\ ((\E k \in 1..3 : lim[k] = -1) => Decode(bytes, flavor, nan, lim).mx <= 64)
 Next == FALSE /\ UNCHANGED <<bytes, flavor, nan, lim>>
 \* design invariants of the reference decoder on every modelled input
 DecTotal ==
